@@ -3,6 +3,7 @@ package main
 import (
 	"bytes"
 	"fmt"
+	"google.golang.org/protobuf/proto"
 	"time"
 
 	"go.brendoncarroll.net/p2p/f/x509"
@@ -163,6 +164,18 @@ func sigVariant(g *rng.R, which int, claimed, attacker testKey, purpose string, 
 		s := advSign(claimed, purpose, cb)
 		s[g.Intn(len(s))] ^= 1 << uint(g.Intn(8))
 		return "bitflipped-valid-sig", s
+	case 7:
+		// a genuine signature of the claimed key, verbatim, from a message of another kind: the timestamp signature of one of
+		// its InitHellos. That very InitHello is first shown to an unrelated honest responder in this process, so that any
+		// state the library keeps about "claims already verified" is primed.
+		hello := newSession(claimed, true, pkeT0).Handshake(nil)
+		newSession(keyN(kC), false, pkeT0).Deliver(nil, hello, pkeT0.Add(time.Second))
+		var ih p2pke.InitHello
+		pl := extractInitHelloPayload(hello)
+		if len(pl) > 2 && proto.Unmarshal(pl[:len(pl)-2], &ih) == nil {
+			return "verbatim-timestamp-sig-of-claimed-key", ih.Sig
+		}
+		return "no-sig", nil
 	default:
 		return "short-sig", advSign(attacker, purpose, cb)[:32]
 	}
@@ -188,7 +201,7 @@ func c03Catalogue() []c03Attack {
 			}
 			// other handshake's binding for lifted signatures
 			otherCB := g.Bytes(64)
-			order := g.Perm(7)
+			order := g.Perm(8)
 			steps := 1 + g.Intn(4)
 			shape := ""
 			for _, which := range order[:steps] {
@@ -272,7 +285,7 @@ func c03Catalogue() []c03Attack {
 			a.truePeer = &mPub
 			hello := a.s.Handshake(nil)
 			otherCB := g.Bytes(64)
-			which := g.Intn(7)
+			which := g.Intn(8)
 			m := newRawPeer(keyN(kM), false)
 			if err := m.ReadInitHello(hello); err != nil {
 				return false, "x"
